@@ -681,7 +681,7 @@ pub static PROP: crate::histcheck::HistProp = crate::histcheck::HistProp {
         "caller threads are simulated at call granularity (no two calls overlap); the library has no synchronisation primitive a finer schedule could exercise",
         "paths are valid Rust strings without NUL",
     ],
-    quick_runs: 20_000,
+    quick_runs: 30_000,
     thorough_runs: 1_000_000,
     block: 500,
     cross_process: false,
